@@ -550,7 +550,13 @@ func c15JudgeC(tb vt.TB, c *c15CaseC) (cut bool, labels []string, nontrivial boo
 			what = "version"
 		}
 		if runErr == nil {
-			return fail("C15:invalid-"+what+"-packaged/"+c.Route, desc+": no error; destination now:\n"+after), labels, nontrivial
+			sig := "C15:invalid-" + what + "-packaged/" + c.Route
+			if what == "name" && c.Name == "/" {
+				// one cause on every route: the name checks compare the name with its last path element, and the last
+				// path element of "/" is "/"
+				sig = "C15:invalid-name-packaged/name-is-a-bare-path-separator"
+			}
+			return fail(sig, desc+": no error; destination now:\n"+after), labels, nontrivial
 		}
 		if after != before {
 			return fail("C15:rejected-chart-leaves-files-behind/"+c.Route+"/invalid-"+what, desc+": error "+runErr.Error()+"\nbefore:\n"+before+"\nafter:\n"+after), labels, nontrivial
